@@ -121,6 +121,17 @@ CLAIMS = {
              'before releasing; the PUBREC branch re-queues (same id, AckType::Complete).',
         note='Not decided: all delivery orders (the checked clauses are order independent).',
         ref='DESIGN.md section 5 C14'),
+    'C19': dict(
+        technique='MIR dominance rules on the handshake gate, routing table extraction, origin tracing of every negotiated limit to its enforcing setter (static analysis)',
+        text='Gate: handler/control services and the dispatcher are created only on the Ok edge of the handshake; a session is returned only from the CONNECT arm on the '
+             'ack.session==Some edge, every other first packet ends in Err, the refusing CONNACK precedes the Err, one packet is read. Routing: MQTT3->handlers.0, '
+             'MQTT5->handlers.1 on all four invocation sites, detection = one peek + retrying recv under a deadline, VersionCodec level table {4,5} by value, rejects others, '
+             'consumes nothing; each CONNECT decoder refuses the other level. Limits: each negotiated value (max QoS, receive maximum, topic alias maximum, inbound/outbound '
+             'maximum packet size, send window, keep-alive and announced keep-alive) is traced from its source field to the setter/constructor that enforces it, and the '
+             'PUBLISH arms consult those values.',
+        note='Not decided: behaviour for every fragmentation of the first 16 bytes (reduced to the no-consume and retrying-recv rules), the numeric 1.5 factor (only dependence on '
+             'CONNECT.keep_alive), behaviour when each limit is probed. The client topic-alias literal (D12) is reported under C17.',
+        ref='DESIGN.md section 5 C19'),
 }
 
 NA_REASONS = {}
